@@ -297,6 +297,41 @@ def tools_catch_only_library_error():
     return out
 
 
+DIAG_BITMAPS = [([2], True), ([2, 3, 4, 12, 22, 24, 26, 31, 33, 42, 48, 49, 63, 71, 94], True), ([3, 7], True), ([2], False), ([127, 128], True), ([], True)]
+
+
+def cli_diagnostics(short):
+    """what mci_ipm_to_csv does after it caught the library error: ipm_info on the file, then print_check_details on its answer -- neither
+    may raise, whatever the file holds"""
+    def h():
+        import contextlib
+        import io
+        core.FUEL.set(40)
+        m = M().mciipm
+        cli = M().mci_ipm_to_csv
+        if short:
+            FL = sym_int('file_len', 0, 23)
+            src = Source('file', 'b', FL)
+            data = src.rope() if not (isinstance(FL, int) and FL == 0) else b''
+        else:
+            L = sym_int('first_len', 0, 0xFFFFFFFF)
+            mti = Source('mti', 'b', 4)
+            bits, bit1 = choose('bitmap', DIAG_BITMAPS)
+            RL = sym_int('rest_len', 0, 2600)
+            rest = Source('rest', 'b', RL)
+            data = cat('b', mk('b', [U32(L, '>I')]), mti.rope(), bitmap_bytes(bits, bit1), rest.rope() if not (isinstance(RL, int) and RL == 0) else b'')
+
+        def rp():
+            return {'kind': 'diagnostics', 'args': {'data': concretize(data, ev) if isinstance(data, Rope) else data}}
+        core.set_fallback(rp, 'C07/concretised')
+        with guard('ipm_info + print_check_details', 'C07/cli-diagnostics', rp):
+            info = m.ipm_info(RopeFile(data))
+            with contextlib.redirect_stdout(io.StringIO()):
+                cli.print_check_details(info)
+        return {'sample': {'short': short, 'valid': bool(is_true(info.get('isValidIPM')))}, 'replay': rp()}
+    return h
+
+
 def cli_syntax():
     def h():
         caught = tools_catch_only_library_error()
@@ -350,5 +385,8 @@ def obligations(tier):
                       'ten merchant name/location values, nine of which do not follow the configured layout (long unbroken runs, no separators, only separators)', _funcs))
         obs.append(Ob('msg/bit1-clear-family/%s' % enc, bit1_clear_family(enc, enc == 'cp500'), 120,
                       'bitmaps %s with the secondary-bitmap flag clear x four data tails' % BIT1_CLEAR, _funcs))
+    obs.append(Ob('cli/diagnostics', cli_diagnostics(False), 300, 'ipm_info + print_check_details (what mci_ipm_to_csv runs after catching the library '
+                  'error): first length any 32-bit value, opaque MTI, bitmap from a family of 6, 0..2600 opaque bytes after it', _funcs))
+    obs.append(Ob('cli/diagnostics-short', cli_diagnostics(True), 60, 'the same on files of 0..23 opaque bytes', _funcs))
     obs.append(Ob('cli/catch-clauses', cli_syntax(), 10, 'AST of the three command line wrappers', lambda: []))
     return obs
